@@ -33,6 +33,15 @@ class Shuffle(zope.testrunner.feature.Feature):
             # we can't introspect the seed later for reporting.  This is a
             # simple emulation of what random.Random.seed does anyway.
             self.seed = int(time.time() * 256)  # use fractional seconds
+            if self.active:
+                # Layers run in subprocesses are started with our arguments:
+                # hand them the seed, or each would draw its own and the
+                # seed reported below would not reproduce this run.
+                options = runner.options
+                options.shuffle_seed = self.seed
+                options.original_testrunner_args = list(
+                    options.original_testrunner_args
+                ) + ['--shuffle-seed', str(self.seed)]
 
     def global_setup(self):
         rng = random.Random(self.seed)
